@@ -61,7 +61,6 @@ def Same (enc : Enc A D) : PVal A D → PVal A D → Prop
   | .ndobj dt sh xs, .ndobj dt' sh' ys => dt = dt' ∧ sh = sh' ∧ SameSeq enc xs ys
   | .task n a k, .task n' a' k' => n = n' ∧ SameSeq enc a a' ∧ ∃ zs, zs ~ k' ∧ SameKVs enc k zs ∧ KeysDistinct enc k'
   | .tasklet b f, .tasklet b' f' => Same enc b b' ∧ Same enc f f'
-  | .getitem i, .getitem j => Same enc i j
   | .hashed v, .hashed w => Same enc v w
   | _, _ => False
 def SameSeq (enc : Enc A D) : List (PVal A D) → List (PVal A D) → Prop
@@ -109,7 +108,6 @@ theorem ser_same (enc : Enc A D) (ho : TotalOrder enc) (a b : PVal A D) (h : Sam
   | .tasklet b f, .tasklet b' f', h =>
     simp only [Same] at h
     simp only [ser]; rw [ser_same enc ho b b' h.1, ser_same enc ho f f' h.2]
-  | .getitem i, .getitem j, h => simp only [Same] at h; simp only [ser]; rw [ser_same enc ho i j h]
   | .hashed v, .hashed w, h => simp only [Same] at h; simp only [ser]; rw [ser_same enc ho v w h]
 theorem serSeq_same (enc : Enc A D) (ho : TotalOrder enc) (k : Nat) (xs ys : List (PVal A D)) (h : SameSeq enc xs ys) :
     serSeq enc k xs = serSeq enc k ys := by
